@@ -35,3 +35,4 @@ open Qvnt
 #print axioms C20_code_bits
 #print axioms C20_code_vreg
 #print axioms C20_code_view
+#print axioms C20_code_index
